@@ -149,8 +149,8 @@ func c14CtxRun(t *rapid.T) {
 		n := rapid.IntRange(1, maxOps).Draw(t, "nops")
 		for j := 0; j < n && total < budget; j++ {
 			total++
-			o := ctxOp{Key: rapid.SampledFrom(keys).Draw(t, "key")}
-			switch rapid.IntRange(0, 9).Draw(t, "kind") {
+			o := ctxOp{Key: keys[uni(t, "key", len(keys))]}
+			switch uni(t, "kind", 10) {
 			case 0, 1, 2, 3:
 				o.Kind, o.Val = opSet, (i+1)*1000+j+1
 			case 4, 5, 6:
